@@ -94,6 +94,7 @@ def step (st : St) : List String → St × String
   | ["createacct", a] => (match a.toNat? with | some a => ({ db := createAccount st.db a }, "ok") | none => (st, "bad-op"))
   | ["sync"] => ({ db := syncBalances st.db addrs }, "ok")
   | "ptx" :: _ => (st, "skip")
+  | "dtx" :: _ => (st, "skip")
   | ["noop"] => (st, "ok")
   | ["dump"] => ({ db := loadAll st.db }, dump st.db)
   | _ => (st, "bad-op")
